@@ -369,7 +369,7 @@ func runC03(c *Ctx) {
 							if _, nested := k.(*ast.RangeStmt); nested {
 								return false
 							}
-							if call, ok := k.(*ast.CallExpr); ok && isAnnotationCall(fr.Info(), call) {
+							if call, ok := k.(*ast.CallExpr); ok && (isAnnotationCall(fr.Info(), call) || annotatesHere(fr.Pkg, fr.Decl, call)) {
 								ann = true
 							}
 							return true
